@@ -10,8 +10,17 @@ Property theorems only; helper lemmas are in `Proofs/ServeRefine.lean`.
 4. `cut_refines`, `findAnswer_refines`, `serve_v1_refines_spec`: on any store that holds exactly the
    rows of a well-formed record list under the v1 key layout (CDB and RocksDB v1), the handler
    model returns `Spec.answer`.
+5. `answer_perm_invariant`, `serve_v1_refines_spec_file_order`: `Spec.answer` is a function of the
+   multiset of declared records (up to order inside sections), so the refinement holds against the
+   record list in file order.
+6. `file_represents_declared`, `file_served_as_declared`: the store the model compiler builds from a
+   data file (`Pipeline.compile`) holds exactly the rows of the records the Spec oracle decodes from
+   the same file (`Pipeline.zoneOf`); hence the handler model on the compiled file returns
+   `Spec.answer` of the declared zone. Helper lemmas are in `Proofs/Pipeline.lean`.
 -/
 import DnsVerif.Proofs.ServeRefine
+import DnsVerif.Proofs.Pipeline
+import DnsVerif.Proofs.ViewSort
 
 namespace DnsVerif.Props.C01
 open DnsVerif DnsVerif.Codec DnsVerif.Serve DnsVerif.Name DnsVerif.ServeRefine
@@ -457,5 +466,349 @@ example :
   decide +kernel
 
 end Refinement
+
+/-! ## 5. the answer is a function of the multiset of declared records
+
+`serve_v1_refines_spec` is stated against the reader's order `viewSort l recs` (rows tagged with the
+client's location first). This section removes that order from the statement.
+
+Vocabulary (`Proofs/ViewSort.lean`):
+* `GroupEq g' g` — same owner, type, class and maximum; candidate lists permuted.
+* `GroupsSame gs' gs` — position by position `GroupEq`. `GroupsPerm gs' gs` — some permutation of
+  `gs'` is `GroupsSame` to `gs`.
+* `AnswerPerm a' a` — the six components of `answer_perm_invariant` as a structure.
+* `SoaDet recs l` — in the view of `l`, the non-wildcard SOA records one owner declares under one
+  location tag agree on TTL and rdata (decidable). -/
+
+section PermInvariance
+open Spec DnsVerif.Loc DnsVerif.ViewSort
+
+/-- **Permutation invariance.** For ANY permutation `recs'` of the declared records `recs` (same maps
+and subnets), every query and every client location `l`: same rcode, same AA, the answer records are a
+permutation, the answer address groups are the same groups in the same order (A, then AAAA) with
+permuted candidate lists, the authority records are a permutation, and the additional section holds
+the same groups with permuted candidate lists, possibly in another group order (the order of the
+targets follows the order of the answer / authority records).
+
+`SoaDet` is the one hypothesis, and it is forced (`soa_order_matters`): the SOA of a negative answer is
+a first match (`find?`, the record tagged with the client's location preferred), so two different SOA
+records declared for one owner under one tag are told apart by their order. -/
+theorem answer_perm_invariant (recs' recs : List Rec) (hperm : recs'.Perm recs) (l : Bytes)
+    (hsoa : SoaDet recs l) (maps : List MapDecl) (subnets : List SubnetDecl)
+    (q : List Bytes) (qtype qclass maxAns : Nat) :
+    let a' := Spec.answer ⟨recs', maps, subnets⟩ q qtype qclass maxAns l
+    let a := Spec.answer ⟨recs, maps, subnets⟩ q qtype qclass maxAns l
+    a'.rcode = a.rcode ∧ a'.aa = a.aa ∧ a'.answer.Perm a.answer ∧
+      GroupsSame a'.answerAddrs a.answerAddrs ∧ a'.authority.Perm a.authority ∧
+      GroupsPerm a'.additional a.additional :=
+  let h := answer_perm hperm l hsoa maps subnets q qtype qclass maxAns
+  ⟨h.rcode, h.aa, h.answer, h.answerAddrs, h.authority, h.additional⟩
+
+/-- For the reader's order no hypothesis is needed: `viewSort` is a stable partition, which keeps the
+first match of both SOA searches. -/
+theorem answer_viewSort_invariant (recs : List Rec) (l : Bytes) (maps : List MapDecl)
+    (subnets : List SubnetDecl) (q : List Bytes) (qtype qclass maxAns : Nat) :
+    AnswerPerm (Spec.answer ⟨viewSort l recs, maps, subnets⟩ q qtype qclass maxAns l)
+      (Spec.answer ⟨recs, maps, subnets⟩ q qtype qclass maxAns l) :=
+  answer_viewSort recs l maps subnets q qtype qclass maxAns
+
+/-- `viewSort` is a permutation of the file order. -/
+theorem viewSort_is_perm (l : Bytes) (recs : List Rec) : (viewSort l recs).Perm recs :=
+  viewSort_perm l recs
+
+/-- **Refinement against the file order.** Hypotheses as in `serve_v1_refines_spec`, `TargetsOK` now
+on the answer computed from the record list in FILE order: the handler replies, and its reply is
+(`ofSpec` of) an answer equal to `Spec.answer` on the file-order record list up to `AnswerPerm`. -/
+theorem serve_v1_refines_spec_file_order (b : Backend) (hb : b ≠ .rdbV2) (s : Store) (recs : List Rec)
+    (l : Bytes) (h0 : RepresentsAt s recs [0, 0]) (hl : RepresentsAt s recs l) (hwf : WellFormed recs)
+    (q : List Bytes) (hq : NameOK q) (qtype qclass maxAns : Nat)
+    (maps : List MapDecl) (subnets : List SubnetDecl)
+    (ht : TargetsOK ((Spec.answer ⟨recs, maps, subnets⟩ q qtype qclass maxAns l).answer ++
+                     (Spec.answer ⟨recs, maps, subnets⟩ q qtype qclass maxAns l).authority)) :
+    ∃ A, serve ⟨b, s, l⟩ ⟨pack q, pack q, qtype, qclass, maxAns⟩ = .reply (ofSpec A) ∧
+      AnswerPerm A (Spec.answer ⟨recs, maps, subnets⟩ q qtype qclass maxAns l) := by
+  have hp := answer_viewSort recs l maps subnets q qtype qclass maxAns
+  exact ⟨_, serve_v1_full b hb s recs l h0 hl hwf q hq qtype qclass maxAns maps subnets
+    (targetsOK_perm (hp.answer.append hp.authority) ht), hp⟩
+
+/-- the same, read off the reply: rcode and AA are the spec's; the answer and authority sections are
+permutations of the spec's records -/
+theorem serve_v1_file_order_sections (b : Backend) (hb : b ≠ .rdbV2) (s : Store) (recs : List Rec)
+    (l : Bytes) (h0 : RepresentsAt s recs [0, 0]) (hl : RepresentsAt s recs l) (hwf : WellFormed recs)
+    (q : List Bytes) (hq : NameOK q) (qtype qclass maxAns : Nat)
+    (maps : List MapDecl) (subnets : List SubnetDecl)
+    (ht : TargetsOK ((Spec.answer ⟨recs, maps, subnets⟩ q qtype qclass maxAns l).answer ++
+                     (Spec.answer ⟨recs, maps, subnets⟩ q qtype qclass maxAns l).authority)) :
+    ∃ r, serve ⟨b, s, l⟩ ⟨pack q, pack q, qtype, qclass, maxAns⟩ = .reply r ∧
+      r.rcode = (Spec.answer ⟨recs, maps, subnets⟩ q qtype qclass maxAns l).rcode ∧
+      r.aa = (Spec.answer ⟨recs, maps, subnets⟩ q qtype qclass maxAns l).aa ∧
+      r.answer.Perm ((Spec.answer ⟨recs, maps, subnets⟩ q qtype qclass maxAns l).answer.map ofSpecRR) ∧
+      r.ns.Perm ((Spec.answer ⟨recs, maps, subnets⟩ q qtype qclass maxAns l).authority.map ofSpecRR) := by
+  obtain ⟨A, hs, hp⟩ := serve_v1_refines_spec_file_order b hb s recs l h0 hl hwf q hq qtype qclass maxAns
+    maps subnets ht
+  exact ⟨_, hs, hp.rcode, hp.aa, hp.answer.map _, hp.authority.map _⟩
+
+/-! non-vacuity. `orderRecs`: the MX / address records tagged `ab` are declared AFTER the untagged
+ones, so a client in `ab` meets them in the opposite order. -/
+
+def orderRecs : List Rec := [
+  ⟨N ["ex", "com"], false, [0, 0], 6, 2560, 0, soaRd⟩,
+  ⟨N ["ex", "com"], false, [0, 0], 2, 259200, 0, nm ["ns1", "ex", "com"]⟩,
+  ⟨N ["ex", "com"], false, [0, 0], 15, 300, 0, be16 10 ++ nm ["mx1", "ex", "com"]⟩,
+  ⟨N ["ex", "com"], false, B "ab", 15, 300, 0, be16 20 ++ nm ["mx2", "ex", "com"]⟩,
+  ⟨N ["mx1", "ex", "com"], false, [0, 0], 1, 60, 1, [1, 1, 1, 1]⟩,
+  ⟨N ["mx2", "ex", "com"], false, [0, 0], 1, 60, 1, [2, 2, 2, 1]⟩,
+  ⟨N ["mx2", "ex", "com"], false, B "ab", 1, 60, 3, [2, 2, 2, 2]⟩]
+
+-- file order and reader's order give different lists in the answer, in the additional group order
+-- and inside a candidate list …
+example :
+    (Spec.answer ⟨orderRecs, [], []⟩ (N ["ex", "com"]) 15 1 1 (B "ab")).answer =
+      [⟨N ["ex", "com"], 15, 1, 300, be16 10 ++ nm ["mx1", "ex", "com"]⟩,
+       ⟨N ["ex", "com"], 15, 1, 300, be16 20 ++ nm ["mx2", "ex", "com"]⟩] ∧
+    (Spec.answer ⟨viewSort (B "ab") orderRecs, [], []⟩ (N ["ex", "com"]) 15 1 1 (B "ab")).answer =
+      [⟨N ["ex", "com"], 15, 1, 300, be16 20 ++ nm ["mx2", "ex", "com"]⟩,
+       ⟨N ["ex", "com"], 15, 1, 300, be16 10 ++ nm ["mx1", "ex", "com"]⟩] ∧
+    (Spec.answer ⟨orderRecs, [], []⟩ (N ["ex", "com"]) 15 1 1 (B "ab")).additional =
+      [⟨N ["mx1", "ex", "com"], 1, 1, [(60, 1, [1, 1, 1, 1])], 1⟩,
+       ⟨N ["mx2", "ex", "com"], 1, 1, [(60, 1, [2, 2, 2, 1]), (60, 3, [2, 2, 2, 2])], 1⟩] ∧
+    (Spec.answer ⟨viewSort (B "ab") orderRecs, [], []⟩ (N ["ex", "com"]) 15 1 1 (B "ab")).additional =
+      [⟨N ["mx2", "ex", "com"], 1, 1, [(60, 3, [2, 2, 2, 2]), (60, 1, [2, 2, 2, 1])], 1⟩,
+       ⟨N ["mx1", "ex", "com"], 1, 1, [(60, 1, [1, 1, 1, 1])], 1⟩] := by
+  decide +kernel
+
+-- … and the handler's reply is the file-order answer up to `AnswerPerm` (all hypotheses hold)
+example :
+    ∃ A, serve ⟨.rdbV1, storeOf orderRecs, B "ab"⟩ ⟨pack (N ["ex", "com"]), pack (N ["ex", "com"]), 15, 1, 1⟩
+        = .reply (ofSpec A) ∧
+      AnswerPerm A (Spec.answer ⟨orderRecs, [], []⟩ (N ["ex", "com"]) 15 1 1 (B "ab")) :=
+  serve_v1_refines_spec_file_order .rdbV1 (by decide) _ orderRecs (B "ab")
+    (represents_storeOf orderRecs (by decide +kernel) [0, 0] rfl)
+    (represents_storeOf orderRecs (by decide +kernel) (B "ab") (by decide +kernel))
+    (by decide +kernel) (N ["ex", "com"]) (by decide +kernel) 15 1 1 [] [] (by decide +kernel)
+
+-- `answer_perm_invariant` on the reversed file: hypotheses hold, and the two answers do differ
+example : SoaDet orderRecs (B "ab") := by decide +kernel
+example :
+    (Spec.answer ⟨orderRecs.reverse, [], []⟩ (N ["ex", "com"]) 15 1 1 (B "ab")).answer ≠
+      (Spec.answer ⟨orderRecs, [], []⟩ (N ["ex", "com"]) 15 1 1 (B "ab")).answer := by
+  decide +kernel
+example :
+    GroupsPerm (Spec.answer ⟨orderRecs.reverse, [], []⟩ (N ["ex", "com"]) 15 1 1 (B "ab")).additional
+      (Spec.answer ⟨orderRecs, [], []⟩ (N ["ex", "com"]) 15 1 1 (B "ab")).additional :=
+  (answer_perm_invariant orderRecs.reverse orderRecs (List.reverse_perm _) (B "ab") (by decide +kernel)
+    [] [] (N ["ex", "com"]) 15 1 1).2.2.2.2.2
+
+/-! `SoaDet` is forced: two different SOA records for one owner under one tag, and the negative
+answer carries whichever comes first -/
+
+def twoSoa : List Rec := [
+  ⟨N ["ex", "com"], false, [0, 0], 6, 2560, 0, soaRd⟩,
+  ⟨N ["ex", "com"], false, [0, 0], 2, 259200, 0, nm ["ns1", "ex", "com"]⟩,
+  ⟨N ["ex", "com"], false, [0, 0], 6, 60, 0, soaRd⟩]
+
+theorem soa_order_matters :
+    ¬ SoaDet twoSoa [0, 0] ∧ twoSoa.reverse.Perm twoSoa ∧
+    (Spec.answer ⟨twoSoa, [], []⟩ (N ["nope", "ex", "com"]) 1 1 1 [0, 0]).authority
+      = [⟨N ["ex", "com"], 6, 1, 2560, soaRd⟩] ∧
+    (Spec.answer ⟨twoSoa.reverse, [], []⟩ (N ["nope", "ex", "com"]) 1 1 1 [0, 0]).authority
+      = [⟨N ["ex", "com"], 6, 1, 60, soaRd⟩] ∧
+    ¬ (Spec.answer ⟨twoSoa.reverse, [], []⟩ (N ["nope", "ex", "com"]) 1 1 1 [0, 0]).authority.Perm
+        (Spec.answer ⟨twoSoa, [], []⟩ (N ["nope", "ex", "com"]) 1 1 1 [0, 0]).authority := by
+  refine ⟨by decide +kernel, List.reverse_perm _, by decide +kernel, by decide +kernel, by decide +kernel⟩
+
+end PermInvariance
+
+/-! ## 6. from the data file to the answer (the pipeline theorem)
+
+`Pipeline.compile b svcb lines` is the store the model compiler builds from the lines of a data file
+(the codec of every line, the accumulator output of the backend, the features record);
+`Pipeline.zoneOf lines` is the declared zone the Spec oracle of the correspondence check answers from
+(the codec output decoded into records / maps / subnets). Both are the functions the driver runs.
+
+Vocabulary (`Proofs/Pipeline.lean`, decidable):
+* `LinesOK lines` — every generic `:` line whose type is A or AAAA has at least four bytes of rdata
+  (the weight field the server reads in rows of these types). Forced, see below.
+* `TagOK l` — the location tag is two bytes and none of `\000%`, `\000M`, `\0008`, the prefixes of the
+  three control key spaces of the v1 layout (legacy subnet records, resolver / client-subnet maps).
+  Forced, see below. `[0,0]` (no location) and every tag with a non-zero first byte are `TagOK`. -/
+
+section Pipeline
+open Spec DnsVerif.Loc DnsVerif.Pipeline DnsVerif.PipelineProofs
+
+/-- **Pipeline theorem**: for the v1 key layouts, under every admissible location tag the compiled
+store holds, for every `NameOK` owner, exactly the rows of the records the file declares for that
+owner and tag, in file order (`RepresentsAt`, the hypothesis of `serve_v1_refines_spec`). It rests on
+`convertLine_shaped` (every pair the codec emits — all sixteen line types — is the pair of an
+emittable record, a map pair or a legacy `%` pair), the key round trip `decodeRR_rrPair` and the
+row round trip `extractRR_putrrhead`. -/
+theorem file_represents_declared (b : Backend) (hb : (∃ sep, b = .cdb sep) ∨ b = .rdbV1) (svcb : SvcbFn)
+    (lines : List Bytes) (store : Store) (z : Zone)
+    (hc : compile b svcb lines = some store) (hz : zoneOf lines = some z) (hlines : LinesOK lines)
+    (l : Bytes) (hl : TagOK l) : RepresentsAt store z.recs l :=
+  compile_representsAt b hb svcb lines store z hc hz hlines l hl
+
+/-- **Served as declared.** A data file that compiles (CDB in either bitmap mode or RocksDB v1; any
+SVCB parameter parser, in particular `noSvcb`) and whose declared records are well-formed: for a
+client in location `l`, every `NameOK` (lower-case) query name, every qtype, class and answer limit,
+the handler model on the compiled store replies with exactly `Spec.answer` of the declared zone —
+all four sections, rcode and AA. `TargetsOK` is the hypothesis of `serve_v1_refines_spec` on the
+additional section. -/
+theorem file_served_as_declared (b : Backend) (hb : (∃ sep, b = .cdb sep) ∨ b = .rdbV1) (svcb : SvcbFn)
+    (lines : List Bytes) (store : Store) (z : Zone)
+    (hc : compile b svcb lines = some store) (hz : zoneOf lines = some z) (hlines : LinesOK lines)
+    (hwf : WellFormed z.recs) (l : Bytes) (hl : TagOK l)
+    (q : List Bytes) (hq : NameOK q) (qtype qclass maxAns : Nat)
+    (ht : TargetsOK ((Spec.answer ⟨viewSort l z.recs, z.maps, z.subnets⟩ q qtype qclass maxAns l).answer ++
+                     (Spec.answer ⟨viewSort l z.recs, z.maps, z.subnets⟩ q qtype qclass maxAns l).authority)) :
+    serve ⟨b, store, l⟩ ⟨pack q, pack q, qtype, qclass, maxAns⟩ =
+      .reply (ofSpec (Spec.answer ⟨viewSort l z.recs, z.maps, z.subnets⟩ q qtype qclass maxAns l)) := by
+  have hb' : b ≠ .rdbV2 := by
+    rcases hb with ⟨sep, h⟩ | h <;> rw [h] <;> intro h' <;> cases h'
+  exact serve_v1_full b hb' store z.recs l
+    (compile_representsAt b hb svcb lines store z hc hz hlines [0, 0] (by decide))
+    (compile_representsAt b hb svcb lines store z hc hz hlines l hl)
+    hwf q hq qtype qclass maxAns z.maps z.subnets ht
+
+/-- The same against the declared zone itself (records in file order, no `viewSort`): the reply is
+`Spec.answer z` up to the order inside sections (`AnswerPerm`, section 5). -/
+theorem file_served_as_declared_file_order (b : Backend) (hb : (∃ sep, b = .cdb sep) ∨ b = .rdbV1)
+    (svcb : SvcbFn) (lines : List Bytes) (store : Store) (z : Zone)
+    (hc : compile b svcb lines = some store) (hz : zoneOf lines = some z) (hlines : LinesOK lines)
+    (hwf : WellFormed z.recs) (l : Bytes) (hl : TagOK l)
+    (q : List Bytes) (hq : NameOK q) (qtype qclass maxAns : Nat)
+    (ht : TargetsOK ((Spec.answer z q qtype qclass maxAns l).answer ++
+                     (Spec.answer z q qtype qclass maxAns l).authority)) :
+    ∃ A, serve ⟨b, store, l⟩ ⟨pack q, pack q, qtype, qclass, maxAns⟩ = .reply (ofSpec A) ∧
+      DnsVerif.ViewSort.AnswerPerm A (Spec.answer z q qtype qclass maxAns l) := by
+  have hb' : b ≠ .rdbV2 := by
+    rcases hb with ⟨sep, h⟩ | h <;> rw [h] <;> intro h' <;> cases h'
+  exact serve_v1_refines_spec_file_order b hb' store z.recs l
+    (compile_representsAt b hb svcb lines store z hc hz hlines [0, 0] (by decide))
+    (compile_representsAt b hb svcb lines store z hc hz hlines l hl)
+    hwf q hq qtype qclass maxAns z.maps z.subnets ht
+
+/-! non-vacuity: a concrete data file, as byte lines — a comment, a `.` line (SOA + NS + glue), an
+untagged and a tagged weighted address, an MX with its exchanger's address, a subnet, a map, a
+wildcard TXT, a generic record -/
+
+def sampleFile : List Bytes := [
+  B "# sample zone",
+  B ".ex.com,5.5.5.5,a,300",
+  B "+www.ex.com,1.2.3.4,300",
+  B "+www.ex.com,1.2.3.5,300,,ab,2",
+  B "@ex.com,1.2.3.9,mail,10",
+  B "%ab,10.0.0.0/8,m1",
+  B "Mex.com,m1",
+  B "'*.w.ex.com,hello",
+  B ":ex.com,99,abc"]
+
+def sampleStore (b : Backend) : Store := (compile b noSvcb sampleFile).getD []
+def sampleDeclared : Zone := (zoneOf sampleFile).getD ⟨[], [], []⟩
+
+theorem sampleStore_eq (b : Backend) (h : (compile b noSvcb sampleFile).isSome = true) :
+    compile b noSvcb sampleFile = some (sampleStore b) := by
+  unfold sampleStore
+  cases hc : compile b noSvcb sampleFile with
+  | none => rw [hc] at h; cases h
+  | some s => rfl
+
+theorem sampleDeclared_eq : zoneOf sampleFile = some sampleDeclared := by
+  have h : (zoneOf sampleFile).isSome = true := by decide +kernel
+  unfold sampleDeclared
+  cases hz : zoneOf sampleFile with
+  | none => rw [hz] at h; cases h
+  | some z => rfl
+
+example : LinesOK sampleFile := by decide +kernel
+example : WellFormed sampleDeclared.recs := by decide +kernel
+example : sampleDeclared.recs.length = 9 := by decide +kernel
+
+-- RocksDB v1, a client in location `ab`: both addresses of `www.ex.com`, the one tagged `ab` first
+example :
+    serve ⟨.rdbV1, sampleStore .rdbV1, B "ab"⟩
+        ⟨pack (N ["www", "ex", "com"]), pack (N ["www", "ex", "com"]), 1, 1, 2⟩ =
+      .reply (ofSpec (Spec.answer ⟨viewSort (B "ab") sampleDeclared.recs, sampleDeclared.maps, sampleDeclared.subnets⟩
+        (N ["www", "ex", "com"]) 1 1 2 (B "ab"))) :=
+  file_served_as_declared .rdbV1 (Or.inr rfl) noSvcb sampleFile _ sampleDeclared
+    (sampleStore_eq _ (by decide +kernel)) sampleDeclared_eq (by decide +kernel) (by decide +kernel)
+    (B "ab") (by decide +kernel) _ (by decide +kernel) 1 1 2 (by decide +kernel)
+
+example :
+    (Spec.answer ⟨viewSort (B "ab") sampleDeclared.recs, sampleDeclared.maps, sampleDeclared.subnets⟩
+      (N ["www", "ex", "com"]) 1 1 2 (B "ab")).answerAddrs
+      = [⟨N ["www", "ex", "com"], 1, 1, [(300, 2, [1, 2, 3, 5]), (300, 1, [1, 2, 3, 4])], 2⟩] := by
+  decide +kernel
+
+-- CDB, no location: the MX answer with the exchanger's address in the additional section
+example :
+    serve ⟨.cdb false, sampleStore (.cdb false), [0, 0]⟩
+        ⟨pack (N ["ex", "com"]), pack (N ["ex", "com"]), 15, 1, 1⟩ =
+      .reply (ofSpec (Spec.answer ⟨viewSort [0, 0] sampleDeclared.recs, sampleDeclared.maps, sampleDeclared.subnets⟩
+        (N ["ex", "com"]) 15 1 1 [0, 0])) :=
+  file_served_as_declared (.cdb false) (Or.inl ⟨false, rfl⟩) noSvcb sampleFile _ sampleDeclared
+    (sampleStore_eq _ (by decide +kernel)) sampleDeclared_eq (by decide +kernel) (by decide +kernel)
+    [0, 0] (by decide) _ (by decide +kernel) 15 1 1 (by decide +kernel)
+
+example :
+    (Spec.answer ⟨viewSort [0, 0] sampleDeclared.recs, sampleDeclared.maps, sampleDeclared.subnets⟩
+      (N ["ex", "com"]) 15 1 1 [0, 0]).additional
+      = [⟨N ["mail", "mx", "ex", "com"], 1, 1, [(86400, 1, [1, 2, 3, 9])], 1⟩] := by
+  decide +kernel
+
+-- CDB with separate bitmaps, against the declared zone in file order
+example :
+    ∃ A, serve ⟨.cdb true, sampleStore (.cdb true), B "ab"⟩
+        ⟨pack (N ["www", "ex", "com"]), pack (N ["www", "ex", "com"]), 1, 1, 2⟩ = .reply (ofSpec A) ∧
+      DnsVerif.ViewSort.AnswerPerm A (Spec.answer sampleDeclared (N ["www", "ex", "com"]) 1 1 2 (B "ab")) :=
+  file_served_as_declared_file_order (.cdb true) (Or.inl ⟨true, rfl⟩) noSvcb sampleFile _ sampleDeclared
+    (sampleStore_eq _ (by decide +kernel)) sampleDeclared_eq (by decide +kernel) (by decide +kernel)
+    (B "ab") (by decide +kernel) _ (by decide +kernel) 1 1 2 (by decide +kernel)
+
+/-! `LinesOK` is forced: a generic `:` line of type A with two bytes of rdata compiles to a row too
+short for the weight field; the declared zone has no such record (NXDOMAIN), the handler fails on
+the row (SERVFAIL). -/
+
+def shortGeneric : List Bytes := [B ".ex.com,5.5.5.5,a", B ":www.ex.com,1,ab"]
+
+def rcodeOf : Outcome → Option Nat
+  | .reply r => some r.rcode
+  | .failedReply => some 2
+  | _ => none
+
+example :
+    ¬ LinesOK shortGeneric ∧
+    ((zoneOf shortGeneric).map fun z => (decide (WellFormed z.recs),
+        (Spec.answer z (N ["www", "ex", "com"]) 1 1 1 [0, 0]).rcode)) = some (true, 3) ∧
+    ((compile .rdbV1 noSvcb shortGeneric).map fun s =>
+        rcodeOf (serve ⟨.rdbV1, s, [0, 0]⟩
+          ⟨pack (N ["www", "ex", "com"]), pack (N ["www", "ex", "com"]), 1, 1, 1⟩)) = some (some 2) := by
+  decide +kernel
+
+/-! `TagOK` is forced: a record tagged with the location `\000M` is stored under a key of the
+resolver-map key space; the Spec oracle's decoder reads that key as a map, so the declared zone has
+no such record (NXDOMAIN) while the handler, for a client in that location, serves it. Likewise a
+legacy `%` record of the CDB codec can sit at `\000%` ++ a packed name. -/
+
+def mapTagged : List Bytes := [B ".ex.com,5.5.5.5,a", B "+www.ex.com,1.2.3.4,,,\\000M"]
+def legacyClash : List Bytes := [B ".ex.com,5.5.5.5,a", B "%lo,0.0.0.0/8,\\001a"]
+
+example :
+    ¬ TagOK [0, 0x4d] ∧ LinesOK mapTagged ∧
+    ((zoneOf mapTagged).map fun z => (decide (WellFormed z.recs),
+        (Spec.answer z (N ["www", "ex", "com"]) 1 1 1 [0, 0x4d]).rcode)) = some (true, 3) ∧
+    ((compile .rdbV1 noSvcb mapTagged).map fun s =>
+        rcodeOf (serve ⟨.rdbV1, s, [0, 0x4d]⟩
+          ⟨pack (N ["www", "ex", "com"]), pack (N ["www", "ex", "com"]), 1, 1, 1⟩)) = some (some 0) := by
+  decide +kernel
+
+example :
+    ¬ TagOK [0, 0x25] ∧ LinesOK legacyClash ∧
+    ((zoneOf legacyClash).map fun z => (z.recs.filter fun r => r.loc = [0, 0x25]).length) = some 0 ∧
+    ((compile (.cdb false) noSvcb legacyClash).map fun s => s.get ([0, 0x25] ++ pack (N ["a"])))
+      = some [B "lo"] := by
+  decide +kernel
+
+end Pipeline
 
 end DnsVerif.Props.C01
